@@ -114,15 +114,19 @@ def SNAP_get_org_code (X : Nat) : Nat := be32 ((ldS SNAP_control_org X) &&& 0xff
 def SNAP_set_org_code (v X : Nat) : Nat := stS SNAP_control_org ((be32 v) ||| (SNAP_get_control X)) X
 end SNAP
 
-section VXLAN   -- include/tins/vxlan.h:43-60 ; sizeof = 8
+section VXLAN   -- include/tins/vxlan.h ; sizeof = 8
 /-- `return Endian::be_to_host(header_.flags) >> 24;` -/
 def VXLAN_get_flags (X : Nat) : Nat := (be32 (memGet .be 8 VXLAN_flags X)) >>> 24
-/-- `header_.flags = Endian::host_to_be(new_flags << 24);` (the whole 32-bit word is assigned) -/
-def VXLAN_set_flags (v X : Nat) : Nat := memSet .be 8 VXLAN_flags (be32 (v <<< 24)) X
+/-- `header_.flags = (header_.flags & Endian::host_to_be<uint32_t>(0x00ffffff)) |
+                     Endian::host_to_be<uint32_t>(static_cast<uint32_t>(new_flags) << 24);` -/
+def VXLAN_set_flags (v X : Nat) : Nat :=
+  memSet .be 8 VXLAN_flags (((memGet .be 8 VXLAN_flags X) &&& be32 0x00ffffff) ||| be32 (v <<< 24)) X
 /-- `return Endian::be_to_host(header_.vni) >> 8;` -/
 def VXLAN_get_vni (X : Nat) : Nat := (be32 (memGet .be 8 VXLAN_vni X)) >>> 8
-/-- `header_.vni = Endian::host_to_be(new_vni << 8);` (the whole 32-bit word is assigned) -/
-def VXLAN_set_vni (v X : Nat) : Nat := memSet .be 8 VXLAN_vni (be32 (v <<< 8)) X
+/-- `header_.vni = (header_.vni & Endian::host_to_be<uint32_t>(0x000000ff)) |
+                   Endian::host_to_be<uint32_t>(static_cast<uint32_t>(new_vni) << 8);` -/
+def VXLAN_set_vni (v X : Nat) : Nat :=
+  memSet .be 8 VXLAN_vni (((memGet .be 8 VXLAN_vni X) &&& be32 0x000000ff) ||| be32 (v <<< 8)) X
 end VXLAN
 
 section TCP   -- src/tcp.cpp:224-296 ; sizeof = 20
